@@ -287,8 +287,9 @@ class Server:
             except Exception: pass
             self.p.wait(); self.p = None
             self.ef.close()
-    def run(self, plan):
+    def run(self, plan, timeout=None):
         """Returns result dict with keys ok, class, detail, hash, plan."""
+        timeout = timeout or self.timeout
         if self.p is None or self.p.poll() is not None:
             self.close(); self._start()
         try:
@@ -298,7 +299,7 @@ class Server:
             self.p.stdin.write(json.dumps(plan) + "\n"); self.p.stdin.flush()
         sub = 0
         published = None
-        timer = threading.Timer(self.timeout, lambda: self.p.kill())
+        timer = threading.Timer(timeout, lambda: self.p.kill())
         timer.start()
         try:
             while True:
@@ -557,8 +558,13 @@ def do_check(cid, tier, seed):
             if r2["ok"] or r2["class"] != cls:
                 print("HARNESS-ERROR nondeterministic violation: first %s then %s" % (cls, r2.get("class") if not r2["ok"] else "ok")); rc = max(rc, 2); continue
             plan = r2.get("plan") or plan      # engines narrow a sweep to the one failing element
+            # a candidate may not take much longer than the original did, and minimisation as a whole is bounded
+            t_first = time.time(); srv.run(plan); t_orig = time.time() - t_first
+            cand_timeout = min(spec.get("timeout", 120), max(5.0, 4 * t_orig))
+            shrink_deadline = time.time() + float(os.environ.get("VERIF_SHRINK_WALL", "150"))
             def same(c):
-                r = srv.run(c)
+                if time.time() > shrink_deadline: return False
+                r = srv.run(c, timeout=cand_timeout)
                 return (not r["ok"]) and r["class"] == cls
             small, used = shrink(plan, same, budget=int(os.environ.get("VERIF_SHRINK", "300")))
             rdet = srv.run(small)
